@@ -10,7 +10,7 @@
     ex_failed, ex_two_dials, ex_failing_window, ex_concurrent_release. *)
 From Coq Require Import List ZArith NArith Arith.
 Import ListNotations.
-From Gnmi Require Import Conn.ConnLts Conn.ConnCheck Conn.ConnProofs.
+From Gnmi Require Import Conn.ConnLts Conn.ConnCheck Conn.ConnProofs Conn.ConnLive.
 
 (** one_dial_in_flight *)
 Theorem C16_one_attempt_per_address :
@@ -198,3 +198,62 @@ Theorem C16_K_sound_one_dial_in_flight :
   forall d1, dial_in pre d1 a -> ended_in pre d1.
 Proof. exact K_sound_one_dial_in_flight. Qed.
 Print Assumptions C16_K_sound_one_dial_in_flight.
+
+(** * Liveness under fairness (Conn/ConnLive.v)
+
+    Runs are infinite sequences [rn : nat -> state] from [init] with an
+    optional label per step; [wfair] is weak fairness of the thread owning a
+    set of labels (requester i: LPass i, LWait i; dialer of object c: LSpawn c,
+    LFailLock c, LFailReady c; a caller inside a done function: LRelease i).
+    The return of a Dial call belongs to the environment: [dial_completes]. *)
+
+(** every request that joined an attempt returns (handle, dial error or
+    cancellation): no waiter is left parked *)
+Theorem C16_request_returns : returns_statement step.
+Proof. exact request_returns. Qed.
+Print Assumptions C16_request_returns.
+
+(** ... and what it returns is the outcome of that attempt *)
+Theorem C16_request_returns_outcome :
+  forall rn lab i c k p, is_run step rn lab -> rn 0 = init ->
+  wfair step rn lab (req_label i) -> wfair step rn lab (dial_label c) -> dial_completes rn lab c ->
+  at_pc i c p (rn k) ->
+  exists j o, (k <= j)%nat /\ objs (rn j) c = Some o /\ at_pc i c (PRet (outcome o)) (rn j).
+Proof. exact request_returns_outcome. Qed.
+Print Assumptions C16_request_returns_outcome.
+
+(** all requests that joined one pending dial return, with the shared outcome *)
+Theorem C16_joiners_return_shared :
+  forall rn lab i1 i2 c k p1 p2, is_run step rn lab -> rn 0 = init ->
+  wfair step rn lab (req_label i1) -> wfair step rn lab (req_label i2) ->
+  wfair step rn lab (dial_label c) -> dial_completes rn lab c ->
+  at_pc i1 c p1 (rn k) -> at_pc i2 c p2 (rn k) ->
+  exists j r, (k <= j)%nat /\ at_pc i1 c (PRet r) (rn j) /\ at_pc i2 c (PRet r) (rn j).
+Proof. exact joiners_return_shared. Qed.
+Print Assumptions C16_joiners_return_shared.
+
+(** a done function that was entered runs to its end; the last holder's run
+    closes the handle and deletes the entry *)
+Theorem C16_release_completes :
+  forall rn lab i c h a k, is_run step rn lab -> rn 0 = init ->
+  wfair step rn lab (rel_label i) -> releasing i c h a (rn k) ->
+  exists j, (k <= j)%nat /\ lab j = Some (LRelease i) /\ releasing i c h a (rn j) /\
+            (exists t', thr (rn (S j)) i = Some t' /\ t_once t' = true) /\
+            (holders (rn j) c = 1%nat -> In c (close_log (rn (S j))) /\ conns (rn (S j)) a = None).
+Proof. exact release_completes. Qed.
+Print Assumptions C16_release_completes.
+
+(** a request that finds no entry (e.g. after the last release) gets a fresh Dial call *)
+Theorem C16_fresh_request_dials :
+  forall rn lab i a k, is_run step rn lab -> rn 0 = init ->
+  lab k = Some (LReq i a true) -> conns (rn k) a = None -> cancelled (rn k) i = false ->
+  wfair step rn lab (dial_label i) ->
+  exists j, (k < j)%nat /\ In (i, a) (dial_log (rn j)).
+Proof. exact fresh_request_dials. Qed.
+Print Assumptions C16_fresh_request_dials.
+
+(** the statement discriminates: it is false for the mechanism of seeded
+    change C16/seed_va (unknown-dialer request leaves a dead entry behind) *)
+Theorem C16_request_returns_refuted_dead_entry : ~ returns_statement vstep.
+Proof. exact request_returns_refuted_dead_entry. Qed.
+Print Assumptions C16_request_returns_refuted_dead_entry.
